@@ -11,4 +11,11 @@ CHECKS = {
         "programs, on once-triggers and on one atomic counter, with seeded yields at hook points between critical sections and CPU-affinity "
         "masks; TSan reports with a bee2 frame and the harness's value monitors are the oracle; evidence counts distinct interleaving signatures.",
    note="Schedules are sampled, not enumerated; TSan generalises only over accesses that occurred; TSan build uses -DNDEBUG; x86 only."),
+ "C11": dict(level="exploration",
+   technique="differential execution: disjoint exact-size buffers vs one exact-size arena with outputs laid over inputs at every offset",
+   text="For every function whose header grants overlap (one table row per header statement) the same call is executed on pairwise disjoint "
+        "exact-size heap blocks and on one arena where dest sits at every offset in [-(len+32), len+32] against src and each auxiliary input "
+        "(key, IV, header, MAC, AD, level) is placed outside, at the start of, inside, or at the end of the output region; outputs and return codes must agree.",
+   note="Only documented permissions are driven; inputs are pairwise disjoint (except memJoin); Release build for values, ASan build in thorough; "
+        "lengths 16..100."),
 }
